@@ -458,8 +458,23 @@ class Replay:
 
     def on_actor_end(self, l):
         self.actor_end[l["a"]] = (T(l["t"]), l["n"])
-        if l["a"] in self.actors:
-            self.actors[l["a"]]["alive"] = False
+        a = self.actors.get(l["a"])
+        if a is not None:
+            if a["alive"] and not a["finished"] and a["dead_at"] is None and self.deadlock is None:
+                self.drop_posts(l["a"])     # killed for another reason (reported elsewhere): its pending posts leave the mailboxes too
+            a["alive"] = False
+
+    def drop_posts(self, an):
+        """the unmatched, non-detached posts of a dead actor leave their mailbox; its other running activities are cancelled"""
+        for mb, q in self.queues.items():
+            for act in list(q):
+                own = act.send if act.send is not None else act.recv
+                if own[0] == an and not (act.send is not None and act.send[2]):
+                    q.remove(act)
+                    act.state = "dropped"
+        for key, act in self.acts.items():
+            if key[0] == an and act.state == "running" and act.kind != "comm":
+                act.state = "dropped"
 
     def on_adv(self, l):
         if self.expect_adv is not None:
@@ -740,16 +755,7 @@ class Replay:
             self.labels.add("fault-hits-nothing")
         for an in dead:
             a = self.actors[an]
-            # the unmatched, non-detached posts of a dead actor leave their mailbox; its other activities are cancelled
-            for mb, q in self.queues.items():
-                for act in list(q):
-                    own = act.send if act.send is not None else act.recv
-                    if own[0] == an and not (act.send is not None and act.send[2]):
-                        q.remove(act)
-                        act.state = "dropped"
-            for key, act in self.acts.items():
-                if key[0] == an and act.state == "running" and act.kind != "comm":
-                    act.state = "dropped"
+            self.drop_posts(an)
             # joiners wake up
             for bn, b in self.actors.items():
                 if b["alive"] and b["cur"] is not None and b["cur"][1][0] == "join" and b["cur"][1][1] == an:
